@@ -335,7 +335,7 @@ struct World {
     trace: Vec<(Point, Ans)>,
     served_heights: Vec<u64>,
     log: Vec<String>,
-    t0: tokio::time::Instant,
+    t0: std::time::Instant,
 }
 
 fn wlog(world: &Arc<Mutex<World>>, what: String) {
@@ -624,6 +624,11 @@ impl SequencerService for FakeSequencer {
     ) -> Result<Response<rawblock::SequencerBlock>, Status> {
         let h = request.into_inner().height;
         wlog(&self.world, format!("get_sequencer_block {h}"));
+        // Fetching a block takes virtual time. State-file writes run on a blocking-pool thread in
+        // real time, during which the paused clock cannot advance: with this delay the reader only
+        // makes progress while the submitter waits for a timer, so how many blocks reach the next
+        // submission does not depend on how long a file operation really takes.
+        tokio::time::sleep(Duration::from_millis(50)).await;
         let tip = {
             let mut w = self.world.lock().unwrap();
             w.served_heights.push(h);
@@ -665,8 +670,9 @@ impl SequencerService for FakeSequencer {
 }
 
 // ---------------------------------------------------------------------------------------------
-// One relayer process lifetime (mirrors `Relayer::run` without the CometBFT HTTP client: the chain
-// id check is skipped and the latest height comes from a watch channel)
+// One relayer process lifetime: the real `Relayer::run` (which reads the state file, starts the
+// submitter task and the block stream, and forwards blocks). Only the CometBFT HTTP client is
+// replaced, through the cfg(verif) hook that supplies the stream of latest sequencer heights.
 // ---------------------------------------------------------------------------------------------
 
 struct Env {
@@ -675,7 +681,6 @@ struct Env {
     sequencer: mem::Connector,
     metrics: &'static crate::Metrics,
     world: Arc<Mutex<World>>,
-    aborts: Arc<Mutex<Vec<tokio::task::AbortHandle>>>,
 }
 
 enum SessionEnd {
@@ -684,11 +689,6 @@ enum SessionEnd {
 }
 
 async fn session(env: Arc<Env>) -> SessionEnd {
-    let submission_state_at_startup = match SubmissionStateAtStartup::new_from_path(&env.state_path).await {
-        Ok(s) => s,
-        Err(e) => return SessionEnd::StateFileUnreadable(format!("{e:#}")),
-    };
-    let last_completed_sequencer_height = submission_state_at_startup.last_completed_sequencer_height();
     let state = Arc::new(State::new());
     let key = tendermint::private_key::Secp256k1::from_slice(&[7u8; 32]).unwrap();
     // same request timeout as CelestiaClientBuilder::new sets on its endpoint
@@ -702,79 +702,39 @@ async fn session(env: Arc<Env>) -> SessionEnd {
     .unwrap();
     let relayer_shutdown_token = CancellationToken::new();
     let submitter_shutdown_token = relayer_shutdown_token.child_token();
-    let rollup_filter = IncludeRollup::parse("").unwrap();
-    let (submitter, submitter_handle) = write::BlobSubmitter::new(
-        celestia_client_builder.clone(),
-        rollup_filter.clone(),
-        state.clone(),
-        submission_state_at_startup,
-        submitter_shutdown_token.clone(),
-        env.metrics,
-    );
-    let submitter_join = tokio::spawn(submitter.run());
-    env.aborts.lock().unwrap().push(submitter_join.abort_handle());
-    let mut submitter_task = submitter_join.fuse();
-
-    let sequencer_grpc_client = SequencerServiceClient::new(mem::channel(env.sequencer.clone(), None));
     let relayer = Relayer {
         relayer_shutdown_token,
         submitter_shutdown_token,
         sequencer_chain_id: SEQ_CHAIN_ID.to_string(),
         sequencer_cometbft_client: sequencer_client::HttpClient::new("http://127.0.0.1:1").unwrap(),
-        sequencer_grpc_client: sequencer_grpc_client.clone(),
+        sequencer_grpc_client: SequencerServiceClient::new(mem::channel(env.sequencer.clone(), None)),
         sequencer_poll_period: Duration::from_millis(100),
         celestia_client_builder,
-        rollup_filter,
-        state: state.clone(),
+        rollup_filter: IncludeRollup::parse("").unwrap(),
+        state,
         submission_state_path: env.state_path.clone(),
         metrics: env.metrics,
     };
-    let mut block_stream = read::BlockStream::builder(env.metrics)
-        .block_time(relayer.sequencer_poll_period)
-        .client(sequencer_grpc_client)
-        .set_last_fetched_height(last_completed_sequencer_height)
-        .state(state.clone())
-        .build();
-    let mut forward_once_free: ForwardFut = Fuse::terminated();
-    let mut tip_rx = env.world.lock().unwrap().tip_tx.subscribe();
-    let tip = *tip_rx.borrow_and_update();
-    relayer.handle_latest_height(Ok(SequencerHeight::try_from(tip).unwrap()), &mut block_stream);
-    relayer.state.set_ready();
-    loop {
-        tokio::select!(
-            biased;
-
-            res = &mut submitter_task => return SessionEnd::Exited(format!("Celestia submission task returned: {res:?}")),
-
-            res = &mut forward_once_free, if !forward_once_free.is_terminated() => {
-                if res.is_err() {
-                    return SessionEnd::Exited("submitter exited unexpectedly while trying to forward block".into());
-                }
-                block_stream.resume();
+    // latest sequencer heights: the current tip, then every change
+    let tip_rx = env.world.lock().unwrap().tip_tx.subscribe();
+    let heights = futures::stream::unfold((tip_rx, true), |(mut rx, first)| async move {
+        if !first && rx.changed().await.is_err() {
+            return None;
+        }
+        let tip = *rx.borrow_and_update();
+        Some((Ok(SequencerHeight::try_from(tip).unwrap()), (rx, false)))
+    });
+    super::verif_hooks::set_latest_height_stream(futures::StreamExt::boxed(heights));
+    match relayer.run().await {
+        Ok(()) => SessionEnd::Exited("run returned Ok".into()),
+        Err(e) => {
+            let text = format!("{e:#}");
+            if text.contains("submission state") {
+                SessionEnd::StateFileUnreadable(text)
+            } else {
+                SessionEnd::Exited(text)
             }
-
-            Ok(()) = tip_rx.changed() => {
-                let tip = *tip_rx.borrow_and_update();
-                relayer.handle_latest_height(Ok(SequencerHeight::try_from(tip).unwrap()), &mut block_stream);
-            }
-
-            Some((height, fetch_result)) = block_stream.next() => {
-                let block = match fetch_result {
-                    Ok(b) => b,
-                    Err(e) => return SessionEnd::Exited(format!("fetch failed at {height}: {e:#}")),
-                };
-                relayer.state.set_latest_fetched_sequencer_height(height.value());
-                if let Err(e) = relayer.forward_block_for_submission(
-                    height,
-                    block,
-                    &mut block_stream,
-                    submitter_handle.clone(),
-                    &mut forward_once_free,
-                ) {
-                    return SessionEnd::Exited(format!("forward failed: {e:#}"));
-                }
-            }
-        );
+        }
     }
 }
 
@@ -839,7 +799,6 @@ impl Replayer {
         let dir = tempfile::tempdir().expect("temp dir");
         let state_path = dir.path().join("submission-state.json");
         std::fs::write(&state_path, "{\"state\": \"fresh\"}").unwrap();
-        let rt = tokio::runtime::Builder::new_current_thread().enable_all().start_paused(true).build().unwrap();
         let notify = Arc::new(Notify::new());
         let tip0 = FIRST + self.setup.backlog - 1;
         let (tip_tx, _tip_rx) = tokio::sync::watch::channel(tip0);
@@ -859,95 +818,86 @@ impl Replayer {
             trace: vec![],
             served_heights: vec![],
             log: vec![],
-            t0: rt.block_on(async { tokio::time::Instant::now() }),
+            t0: std::time::Instant::now(),
         }));
-        let result = rt.block_on(async {
-            use tokio_stream::wrappers::UnboundedReceiverStream;
-            let (celestia_tx, celestia_rx) = tokio::sync::mpsc::unbounded_channel();
-            let celestia = mem::Connector(celestia_tx);
-            let fake = FakeCelestia(world.clone());
-            let server_c = tokio::spawn(
-                tonic::transport::Server::builder()
-                    .add_service(NodeInfoServer::new(fake.clone()))
-                    .add_service(AuthQueryServer::new(fake.clone()))
-                    .add_service(BlobQueryServer::new(fake.clone()))
-                    .add_service(MinGasPriceServer::new(fake.clone()))
-                    .add_service(TxServer::new(fake))
-                    .serve_with_incoming(UnboundedReceiverStream::new(celestia_rx)),
-            );
-            let (sequencer_tx, sequencer_rx) = tokio::sync::mpsc::unbounded_channel();
-            let sequencer = mem::Connector(sequencer_tx);
-            let server_s = tokio::spawn(
-                tonic::transport::Server::builder()
-                    .add_service(SequencerServiceServer::new(FakeSequencer {
-                        world: world.clone(),
-                        blocks: self.blocks.clone(),
-                    }))
-                    .serve_with_incoming(UnboundedReceiverStream::new(sequencer_rx)),
-            );
-            let env = Arc::new(Env {
-                state_path: state_path.clone(),
-                celestia,
-                sequencer,
-                metrics: self.metrics,
-                world: world.clone(),
-                aborts: Arc::new(Mutex::new(vec![])),
-            });
-            let mut sessions = 0u32;
-            let outcome: Result<(Option<Point>, Option<String>), Violation> = loop {
-                sessions += 1;
-                world.lock().unwrap().crash = false;
-                let mut main = tokio::spawn(session(env.clone()));
-                let end = tokio::select!(
+        let mut sessions = 0u32;
+        let result: Result<(Option<Point>, Option<String>, u32), Violation> = loop {
+            sessions += 1;
+            world.lock().unwrap().crash = false;
+            // one process lifetime = one runtime; dropping it drops every task of the relayer
+            let rt = tokio::runtime::Builder::new_current_thread().enable_all().start_paused(true).build().unwrap();
+            let end = rt.block_on(async {
+                use tokio_stream::wrappers::UnboundedReceiverStream;
+                let (celestia_tx, celestia_rx) = tokio::sync::mpsc::unbounded_channel();
+                let celestia = mem::Connector(celestia_tx);
+                let fake = FakeCelestia(world.clone());
+                let _server_c = tokio::spawn(
+                    tonic::transport::Server::builder()
+                        .add_service(NodeInfoServer::new(fake.clone()))
+                        .add_service(AuthQueryServer::new(fake.clone()))
+                        .add_service(BlobQueryServer::new(fake.clone()))
+                        .add_service(MinGasPriceServer::new(fake.clone()))
+                        .add_service(TxServer::new(fake))
+                        .serve_with_incoming(UnboundedReceiverStream::new(celestia_rx)),
+                );
+                let (sequencer_tx, sequencer_rx) = tokio::sync::mpsc::unbounded_channel();
+                let sequencer = mem::Connector(sequencer_tx);
+                let _server_s = tokio::spawn(
+                    tonic::transport::Server::builder()
+                        .add_service(SequencerServiceServer::new(FakeSequencer {
+                            world: world.clone(),
+                            blocks: self.blocks.clone(),
+                        }))
+                        .serve_with_incoming(UnboundedReceiverStream::new(sequencer_rx)),
+                );
+                let env = Arc::new(Env {
+                    state_path: state_path.clone(),
+                    celestia,
+                    sequencer,
+                    metrics: self.metrics,
+                    world: world.clone(),
+                });
+                let mut main = tokio::spawn(session(env));
+                tokio::select!(
                     biased;
                     () = notify.notified() => None,
                     r = &mut main => Some(r),
                     () = tokio::time::sleep(Duration::from_secs(HORIZON_SECS)) => None,
-                );
-                // stop the process: abort every task of the session
-                main.abort();
-                for h in env.aborts.lock().unwrap().drain(..) {
-                    h.abort();
-                }
-                for _ in 0..8 {
-                    tokio::task::yield_now().await;
-                }
-                if let Some(r) = end {
-                    match r {
-                        Ok(SessionEnd::StateFileUnreadable(e)) => {
-                            break Err(self.viol(
-                                "state-file-readable",
-                                "the relayer cannot start from the state file left by a crash",
-                                format!("session {sessions} after answers {:?}: {e}", world.lock().unwrap().trace),
-                            ));
-                        }
-                        Ok(SessionEnd::Exited(e)) => break Ok((None, Some(format!("exited: {e}")))),
-                        Err(e) => break Ok((None, Some(format!("session task failed: {e}")))),
+                )
+            });
+            // the process stops here
+            drop(rt);
+            if let Some(r) = end {
+                match r {
+                    Ok(SessionEnd::StateFileUnreadable(e)) => {
+                        break Err(self.viol(
+                            "state-file-readable",
+                            "the relayer cannot start from the state file left by a crash",
+                            format!("session {sessions} after answers {:?}: {e}", world.lock().unwrap().trace),
+                        ));
                     }
+                    Ok(SessionEnd::Exited(e)) => break Ok((None, Some(format!("exited: {e}")), sessions)),
+                    Err(e) => break Ok((None, Some(format!("session task failed: {e}")), sessions)),
                 }
-                let (crash, blocked, bad) = {
-                    let w = world.lock().unwrap();
-                    (w.crash, w.blocked, w.bad_answer.clone())
-                };
-                if let Some(bad) = bad {
-                    break Err(self.viol("harness", "answer does not fit the decision point", bad));
-                }
-                wlog(&world, format!("session {sessions} stopped: crash={crash} blocked={blocked:?}"));
-                if crash {
-                    // a crash during State::write leaves a partially written temp file behind
-                    std::fs::write(temp_path_of(&state_path), "{\"state\": \"prepa").unwrap();
-                    continue;
-                }
-                if let Some(p) = blocked {
-                    break Ok((Some(p), None));
-                }
-                break Ok((None, Some("no decision point within the horizon".into())));
+            }
+            let (crash, blocked, bad) = {
+                let w = world.lock().unwrap();
+                (w.crash, w.blocked, w.bad_answer.clone())
             };
-            server_c.abort();
-            server_s.abort();
-            outcome.map(|(pending, rest)| (pending, rest, sessions))
-        });
-        drop(rt);
+            if let Some(bad) = bad {
+                break Err(self.viol("harness", "answer does not fit the decision point", bad));
+            }
+            wlog(&world, format!("session {sessions} stopped: crash={crash} blocked={blocked:?}"));
+            if crash {
+                // a crash during State::write leaves a partially written temp file behind
+                std::fs::write(temp_path_of(&state_path), "{\"state\": \"prepa").unwrap();
+                continue;
+            }
+            if let Some(p) = blocked {
+                break Ok((Some(p), None, sessions));
+            }
+            break Ok((None, Some("no decision point within the horizon".into()), sessions));
+        };
         if std::env::var("VERIF_TRACE").is_ok() {
             for l in &world.lock().unwrap().log {
                 println!("TRACE {l}");
@@ -961,7 +911,7 @@ impl Replayer {
             return Err(self.viol(
                 "harness",
                 "history not fully consumed",
-                format!("{} of {} answers used; rest: {rest:?}", w.cursor, w.script.len()),
+                format!("{} of {} answers used; rest: {rest:?}; log {:?}", w.cursor, w.script.len(), w.log),
             ));
         }
         let mut confirmed: Vec<u64> = w.txs.values().filter(|t| matches!(t.status, TxStatus::Included(_))).flat_map(|t| t.heights.clone()).collect();
@@ -1136,6 +1086,24 @@ fn verif_c11_crash() {
             metrics,
         };
         let hist: Vec<Ans> = case.get("history").and_then(J::as_arr).unwrap().iter().map(|j| ans_parse(j.as_str().unwrap())).collect();
+        if let Ok(n) = std::env::var("VERIF_STRESS") {
+            // determinism stress: the same history on 16 threads at once must always look the same
+            let n: usize = n.parse().unwrap();
+            let reference = format!("{:?}", m.run(&hist).map(|o| (o.pending, o.disk, o.confirmed, o.sessions)));
+            std::thread::scope(|sc| {
+                for _ in 0..16 {
+                    sc.spawn(|| {
+                        for i in 0..n {
+                            let got = format!("{:?}", m.run(&hist).map(|o| (o.pending, o.disk, o.confirmed, o.sessions)));
+                            if got != reference {
+                                println!("STRESS-DIVERGED run {i}: {got} vs {reference}");
+                            }
+                        }
+                    });
+                }
+            });
+            println!("STRESS-DONE {reference}");
+        }
         let a = m.run(&hist);
         let b = m.run(&hist);
         assert_eq!(format!("{:?}", a.as_ref().map(|o| (o.pending, &o.disk, &o.confirmed))), format!("{:?}", b.as_ref().map(|o| (o.pending, &o.disk, &o.confirmed))), "uncontrolled nondeterminism");
@@ -1171,6 +1139,15 @@ fn verif_c11_crash() {
             blocks: blocks.clone(),
             metrics,
         };
+        if let Err(v) = m.run(&[]) {
+            rep.finding(Finding {
+                clause: v.clause,
+                signature: v.signature,
+                detail: v.detail,
+                case: J::obj().with("backlog", J::i(setup.backlog)).with("history", J::arr(Vec::<J>::new().into_iter())),
+            });
+            continue;
+        }
         let out = explore::explore(
             &m,
             &Config {
